@@ -44,7 +44,7 @@ class C04(Check):
             'piecewise-constant signals with 1-6 samples per variable, unaligned break-points, windows longer than the signal, results starting with +-inf; '
             'the returned sample list must have non-decreasing stamps, start at the start of the common domain and, as a right-continuous step function, '
             'equal the tick semantics rhoZ (DenseSem.v) at every tick of the domain (cross-checked against the naive evaluator Dn of Dense.v); '
-            'non-trivial = temporal operator and >= 2 samples; distinct by (formula, signals); plus direct calls of intersection(a, b, method) on random sample lists '
+            '20% of the cases with bounded operators write the bounds with explicit units (both ends / one end); non-trivial = temporal operator and >= 2 samples; distinct by (formula, signals); plus direct calls of intersection(a, b, method) on random sample lists '
             '(15% malformed: repeated/decreasing stamps) compared list-for-list, exception-for-None, with the proved model DenseMerge.isect')
 
     def gen_cases(self, rng, tier):
@@ -66,7 +66,11 @@ class C04(Check):
                 continue
             nv = need_vars(f, nv)
             sigs = [dense.gen_signal(rng, start0=(rng.random() < 0.7)) for _ in range(nv)]
-            cases.append({'f': f, 'nv': nv, 'sigs': sigs, 'n': max(len(s) for s in sigs)})
+            c = {'f': f, 'nv': nv, 'sigs': sigs, 'n': max(len(s) for s in sigs)}
+            if (fml.ops(f) & (fml.TUN | fml.TBIN)) and rng.random() < 0.2:
+                # the bounds in another unit notation (default unit stays s, so the time-stamps are unchanged)
+                c['unit_style'] = [rng.choice(['both', 'begin', 'end']), rng.randrange(1 << 30)]
+            cases.append(c)
         # the merge itself, called directly: intersection(a, b, method) against DenseMerge.isect
         nm = 300 if tier == 'quick' else 6000
         for i in range(nm):
@@ -89,11 +93,20 @@ class C04(Check):
         return ['(dn std %s (%s))' % (fml.to_sx(c['f']), w), '(rhoz std %s (%s) %d %d)' % (fml.to_sx(c['f']), w, t0, max(tend, t0)),
                 '(deval %s (%s))' % (fml.to_sx(c['f']), w)]
 
+    def spec_text(self, c):
+        if c.get('unit_style'):
+            import random
+            from harness.densex import dense_bound
+            style, seed = c['unit_style']
+            r = random.Random(seed)
+            return 'out = ' + fml.to_text(c['f'], lambda b, e: dense_bound(r, b, e, 's', style))
+        return 'out = ' + dense.dense_formula_text(c['f'])
+
     def impl_cases(self, c):
         if 'merge' in c:
             return [{'monitor': 'dense-merge', 'op': c['merge'], 'a': c['a'], 'b': c['b']}]
         used = fml.fvars(c['f'])
-        return [{'monitor': 'dense-offline', 'vars': fml.VARS[:c['nv']], 'spec': 'out = ' + dense.dense_formula_text(c['f']),
+        return [{'monitor': 'dense-offline', 'vars': fml.VARS[:c['nv']], 'spec': self.spec_text(c),
                  'calls': [['evaluate', [[fml.VARS[i], dense.to_impl(c['sigs'][i])] for i in used]]]}]
 
     def judge(self, c, mlines, ires):
@@ -117,7 +130,7 @@ class C04(Check):
         used = fml.fvars(c['f'])
         t0 = max(c['sigs'][i][0][0] for i in used)
         end = max(c['sigs'][i][-1][0] for i in used)
-        det = {'spec': 'out = ' + dense.dense_formula_text(c['f']), 'signals_ticks': c['sigs'], 'tick_s': dense.SCALE,
+        det = {'spec': self.spec_text(c), 'signals_ticks': c['sigs'], 'tick_s': dense.SCALE,
                'expected': {'source': 'Dn (Dense.v): dense-time semantics on the common domain', 'samples_ticks': [[t, fml.val_sx(v)] for t, v in ref]}}
         i = ires[0]
         if i['setup']['status'] != 'ok':
